@@ -17,16 +17,57 @@ pub struct FreeListSim {
     free_list: FreeList,
     page_pool: PagePool,
     bump: u32,
+    /// the free-list pages as the store file would hold them: page number -> encoded page
+    /// (the initial portions encoded with the real encoder, then every page `commit` hands to the writer)
+    image: std::collections::BTreeMap<u32, Vec<u8>>,
 }
 
 impl FreeListSim {
     /// `portions`: tail portion first, head portion last, items bottom of the stack first (the
     /// in-memory order of `FreeList::portions`).
     pub fn new(portions: Vec<(u32, Vec<u32>)>, bump: u32) -> Self {
+        let page_pool = PagePool::new();
+        let mut image = std::collections::BTreeMap::new();
+        for (i, (pn, items)) in portions.iter().enumerate() {
+            let prev = if i == 0 { 0 } else { portions[i - 1].0 };
+            image.insert(*pn, FreeList::verif_encode_page(&page_pool, prev, items));
+        }
         FreeListSim {
             free_list: FreeList::verif_from_portions(portions),
-            page_pool: PagePool::new(),
+            page_pool,
             bump,
+            image,
+        }
+    }
+
+    /// What reopening sees: the file image (every free-list page written so far, in a file of `bump` pages at `path`) read
+    /// back by the real `FreeList::read` from the current head. Returns the cached length and the portions.
+    pub fn read_back(&self, path: &str) -> Result<(usize, Vec<(u32, Vec<u32>)>), String> {
+        use std::os::unix::fs::FileExt;
+        let file = std::fs::OpenOptions::new()
+            .read(true)
+            .write(true)
+            .create(true)
+            .truncate(true)
+            .open(path)
+            .map_err(|e| e.to_string())?;
+        file.set_len(self.bump as u64 * crate::io::PAGE_SIZE as u64)
+            .map_err(|e| e.to_string())?;
+        for (pn, page) in self.image.iter() {
+            if *pn < self.bump {
+                file.write_all_at(page, *pn as u64 * crate::io::PAGE_SIZE as u64)
+                    .map_err(|e| e.to_string())?;
+            }
+        }
+        let head = self.free_list.head_pn();
+        let r = std::panic::catch_unwind(std::panic::AssertUnwindSafe(|| {
+            FreeList::read(&self.page_pool, &file, head)
+        }));
+        let _ = std::fs::remove_file(path);
+        match r {
+            Ok(Ok(fl)) => Ok((fl.as_clean().len(), fl.verif_portions())),
+            Ok(Err(e)) => Err(format!("{e:#}")),
+            Err(_) => Err("panic".into()),
         }
     }
 
@@ -52,6 +93,9 @@ impl FreeListSim {
         let freed = freed.into_iter().map(PageNumber).collect();
         let pages = self.free_list.commit(&self.page_pool, freed, &mut next_bump);
         self.bump = next_bump.0;
+        for (pn, page) in pages.iter() {
+            self.image.insert(pn.0, page[..].to_vec());
+        }
         pages
             .iter()
             .map(|(pn, page)| {
